@@ -72,6 +72,10 @@ pub struct PreCred {
     /// length of the stored secrets (0 = the usual 32); an item imported from elsewhere may carry others
     #[serde(default)]
     pub hmac_len: u8,
+    /// order of the COSE key's parameters in the stored record (an item imported from elsewhere): 0 = the
+    /// library's own [crv, x, y, d]; 1 = [crv, d, x, y]; 2 = [d, y, x, crv]; 3 = [x, y, d] without crv
+    #[serde(default)]
+    pub key_layout: u8,
 }
 
 #[derive(Serialize, Deserialize, Clone, Copy, Debug, PartialEq, Eq, Hash)]
@@ -155,6 +159,9 @@ pub enum IdRef {
     /// id of the most recently created credential
     Last,
     Unknown(Vec<u8>),
+    /// an id that is NOT held but derived from the n-th credential of the op's RP: 0 = last byte cut,
+    /// 1 = first half, 2 = one zero byte appended, 3 = four bytes appended, 4 = last bit flipped, 5 = empty
+    NearMiss(u32, u8),
 }
 
 #[derive(Serialize, Deserialize, Clone, Debug, PartialEq)]
@@ -163,6 +170,9 @@ pub enum CData {
     /// extra client data: a JSON object given as text
     Extra(String),
     Hash(Vec<u8>),
+    /// a caller-supplied ClientData implementation whose extra data is produced on demand and differs
+    /// from call to call (a sequence number); the hash is left to the library
+    Stamped,
 }
 
 #[derive(Serialize, Deserialize, Clone, Debug, PartialEq)]
@@ -207,6 +217,10 @@ pub struct RegSpec {
     /// attestation conveyance, attestation formats, authenticator attachment); 0 = all absent
     #[serde(default)]
     pub misc: u64,
+    /// how the options reach the client: 0 = as typed values, 1 = through their JSON form, 2 / 3 = through
+    /// JSON with authenticatorSelection.residentKey replaced by an unknown string ("mandatory" / "")
+    #[serde(default)]
+    pub via_json: u8,
 }
 
 #[derive(Serialize, Deserialize, Clone, Debug, PartialEq)]
@@ -250,6 +264,9 @@ pub struct McSpec {
     /// also send an hmac-secret-mc input (key agreement + encrypted salts, opaque to this library)
     #[serde(default)]
     pub hmac_secret_mc: bool,
+    /// rp / user names: 0 = short, 1 = long ASCII (> 64 bytes), 2 = long multi-byte
+    #[serde(default)]
+    pub names: u8,
 }
 
 #[derive(Serialize, Deserialize, Clone, Debug, PartialEq)]
@@ -385,6 +402,14 @@ pub enum LinkFault {
     },
     /// replace the message entirely
     Replace(Vec<u8>),
+    /// replace the message by prefix + `count` pairwise different entries + suffix; entry i is a CBOR
+    /// text key "k%08x" with value 0 (json = false) or `"k%08x":0,` (json = true)
+    DistinctEntries {
+        prefix: Vec<u8>,
+        count: u32,
+        json: bool,
+        suffix: Vec<u8>,
+    },
     /// replace `len` bytes at `at` (one whole encoded item) by other bytes (an item of another type or size)
     ReplaceRange(u32, u32, Vec<u8>),
     /// replace the message by prefix + unit x times + suffix (large inputs without large scenarios)
